@@ -53,6 +53,9 @@ def _is_path(e):
     """name / attribute / constant-subscript path:  self.model, self.vars[-1], sol['z'], sup.st"""
     if isinstance(e, ast.Name):
         return True
+    if isinstance(e, ast.Call) and isinstance(e.func, ast.Name) and e.func.id == 'super' and not e.args and \
+            not e.keywords:
+        return True
     if isinstance(e, ast.Attribute):
         return _is_path(e.value)
     if isinstance(e, ast.Subscript):
@@ -63,8 +66,17 @@ def _is_path(e):
     return False
 
 
+def _is_widthdiff(e):
+    """A - B over paths / len(..) / constants: a named difference that tests compare with 0"""
+    def atom(x):
+        return _is_path(x) or isinstance(x, ast.Constant) or \
+            (isinstance(x, ast.Call) and isinstance(x.func, ast.Name) and x.func.id == 'len' and len(x.args) == 1
+             and _is_path(x.args[0]))
+    return isinstance(e, ast.BinOp) and isinstance(e.op, ast.Sub) and atom(e.left) and atom(e.right)
+
+
 def _is_boolish(e):
-    if isinstance(e, ast.Compare):
+    if isinstance(e, ast.Compare) or _is_widthdiff(e):
         return True
     if isinstance(e, ast.BoolOp):
         return all(_is_boolish(v) for v in e.values)
@@ -263,6 +275,13 @@ class _Tests(ast.NodeTransformer):
             if mir is not None:
                 self.changed = True
                 return ast.copy_location(ast.Compare(left=t.comparators[0], ops=[mir()], comparators=[t.left]), t)
+        # A - B <op> 0  ->  A <op> B
+        if isinstance(t, ast.Compare) and len(t.ops) == 1 and isinstance(t.left, ast.BinOp) and \
+                isinstance(t.left.op, ast.Sub) and isinstance(t.comparators[0], ast.Constant) and \
+                t.comparators[0].value == 0 and not isinstance(t.comparators[0].value, bool) and \
+                isinstance(t.ops[0], (ast.Lt, ast.Gt, ast.LtE, ast.GtE, ast.Eq, ast.NotEq)):
+            self.changed = True
+            return ast.copy_location(ast.Compare(left=t.left.left, ops=t.ops, comparators=[t.left.right]), t)
         if isinstance(t, ast.UnaryOp) and isinstance(t.op, ast.Not):
             inner = t.operand
             if isinstance(inner, ast.UnaryOp) and isinstance(inner.op, ast.Not):
@@ -521,6 +540,13 @@ def normalize_function(fn, resolver=None, list_attrs=frozenset(), consts=None, c
             if name in comp_targets or name == 'self':
                 continue
             v = asg.value
+            vc = v.operand if isinstance(v, ast.UnaryOp) and isinstance(v.op, ast.USub) else v
+            if isinstance(vc, ast.Constant) and (vc.value is None or isinstance(vc.value, (bool, int, float, str))) \
+                    and vc.value is not Ellipsis:
+                # a local name for a constant
+                if _dominates_uses(new, asg, name) and not _in_loop(new, asg):
+                    table[name] = v
+                continue
             if not _is_path(v) or (isinstance(v, ast.Name) and v.id == name):
                 continue
             # attributes along the path must not be written in this function
@@ -533,6 +559,8 @@ def normalize_function(fn, resolver=None, list_attrs=frozenset(), consts=None, c
             ok = True
             for r in _names(v):
                 c = counts.get(r, 0)
+                if c == 0:
+                    continue                      # a global / builtin name that the function never binds
                 if r in params and c == 2:
                     continue                      # a parameter that is never rebound
                 if c == 1 and r in single and r != name:
